@@ -8,13 +8,13 @@ TEXT = {
  "C01": ("Bounded symbolic model checking of the real Hnsw Insert/Remove/Search/Save/Load: histories up to the bound are path decisions, vectors and query are solver variables; every result assertion (live, true score, sorted, unique, <=k, non-empty) is discharged by z3 per path and counterexamples are replayed natively.",
          "bounds: <=5 operations, 4 ids, levels {0,1}, M in {1,2}, 1-D grid vectors, portable Manhattan kernel; gosmt+z3 trusted; dataset-level merge is C09, partition update path is exercised by the C02/C04 harnesses"),
  "C02": ("Bounded symbolic model checking of the real partition apply path (process + six *Value functions) against a sequential reference map: outcomes, contents, Len and BytesSize after every step.",
-         "bounds: <=3-4 changes, 2-3 ids, <=2 items per batch, metadata shapes nil/empty/1/2 keys; proto codec opaque; outcome read from a buffered channel"),
+         "bounds: <=3-4 changes, 2-3 ids, <=2 items per batch, metadata shapes nil/empty/1/2 keys plus a 256-byte key (must be refused with nothing changed, also on the remove+insert update path); proto codec opaque; outcome read from a buffered channel"),
  "C04": ("Bounded symbolic model checking: one symbolic log applied to a full-replay replica (independent map orders) and to a replica that restores the snapshot of every cut on top of every applied prefix; contents must be equal.",
          "bounds: logs of <=3 entries (<=2 with batch kinds), 2-3 ids; follower outcomes not observable; graph shape not compared"),
  "C07": ("Bounded symbolic model checking of the exactness clause with a brute-force rank oracle over the same distance terms; the recall floor on large random sets is statistical and is not decided.",
          "bounds: M in {1,2}, n<=2M+1, n<=max(ef,k), levels {0,1}, four selection modes; recall@10 clause not decided"),
  "C08": ("Bounded symbolic model checking of Save -> fragmenting reader -> Load on symbolic index states, with field-by-field comparison, resave/reload, byte-counter and stale-item checks; length fields probed with lengths around 2^8/2^16 as solver variables.",
-         "bounds: <=3 items (5 operations in one configuration), readers delivering all/1/2..5 bytes per call; two known findings (over-long metadata key/value) are listed in known_findings.json"),
+         "bounds: <=3 items (5 operations in one configuration), readers delivering all/1/2..5 bytes per call; metadata with a key > 255 bytes or a value > 65535 bytes must be refused at insertion (was a known finding, repaired by f2b1ce0)"),
  "C09": ("Bounded symbolic model checking of the real Dataset.Search goroutines/collector with modelled channels and select: every worker outcome, replica choice, completion order and select choice within the bound; scores symbolic with a rank oracle. End-to-end variant: remote nodes are real Datasets whose real SearchPartitions answers from real indexes with symbolic vectors; the answer must be the k best of the whole dataset with true scores and no id twice.",
          "bounds: <=2 partitions on 2 remote nodes (3 partitions on 3 nodes with one worker each, k=2), <=2 items per partition; interleavings at synchronisation points; remote services are harness pb.SearchClient implementations (end-to-end variant: backed by real Datasets)"),
  "C10": ("Bounded symbolic model checking with the 128-bit id and the partition count as bit-vector variables: range, reference-function equality, determinism, and agreement of every API path (single and batch) on the owner; two solvers must agree on the arithmetic core.",
@@ -26,7 +26,7 @@ TEXT = {
  "C16": ("Bounded model checking of Allocator.getPartitionsNodeIds over all Fisher-Yates outcomes; independence as a cover obligation confirmed natively by repeated runs.",
          "bounds: N<=3-4, R<=3, P<=2-3; no solver variables occur (exhaustive path enumeration by the symbolic executor)"),
  "C17": ("Bounded symbolic model checking of the real Dataset.SizeInfo goroutines with symbolic remote sizes: sum, exactly-once lookup, failure propagation, no goroutine left blocked.",
-         "bounds: <=3 partitions over local + 2 remote nodes; interleavings at synchronisation points"),
+         "bounds: <=3 partitions over local + 2 remote nodes (2 partitions when remote nodes may have departed: no cached client and no address, so the dial fails); interleavings at synchronisation points"),
  "C18": ("Bounded model checking of the real Allocator loop and cluster.Conn under concurrent catalogue and membership drivers; a watchdog that can only fire when all goroutines are blocked reports a wedge.",
          "bounds: <=2 membership and <=3 catalogue events, 1-3 preemptions; partitions not assigned to the local node (raft loading not exercised); no solver variables occur"),
  "C03": ("Reduced claim: bounded model checking of the raft glue. The real RaftGroup.run loop is fed every Ready shape in the bound; on the recorded trace, for every crash instant, nothing is applied/acknowledged before the Ready was handed to the WAL, snapshots and entries are applied in order exactly once, local snapshots are labelled with the last applied index, a stored snapshot is restored before the first Ready. The end-to-end crash-recovery statement needs etcd/raft's replay and Badger's durability and is not decided.",
@@ -35,15 +35,15 @@ TEXT = {
          "bounds: <=2 Readys, <=2 messages of 5 types to reachable/unknown/failing peers; one restart; consensus trusted"),
  "C06": ("Bounded symbolic differential checking of the real badgerWAL against etcd's real MemoryStorage over an API-level Badger model: every call sequence in the bound (appends incl. conflicting overwrites, hard state, received snapshots below/at/above the last index, compaction, reopen), terms symbolic through the real raftpb codec, every read compared; second group unaffected; deleted group looks fresh. Counterexamples are replayed on a real in-memory Badger.",
          "bounds: <=3 calls (4 thorough), batches <=2, terms < 100; Badger API model trusted (validated by native replays); reference driven per the raft contract"),
- "C12": ("Bounded model checking of a one-node server assembled from the real components (handlers, DatasetManager, Dataset, partitions, ready loops, badgerWAL, Allocator): one hostile well-typed request per RPC over all request shapes in the bound; panics, fatal logs (apply errors) and deadlocks are violations; counterexamples replayed on a native one-node assembly with real etcd raft and real in-memory Badger.",
-         "bounds: id shapes {valid, unknown, 15 bytes, empty}, vector shapes {right, longer, empty} with values {number, NaN}, k in {0,2,2^32-1}, <=2 batch items, catalogue shapes dimension 0..2 / partitions 0..2 / replicas 0..1 / undefined space; one schedule per request; no solver variables occur (exhaustive path enumeration by the symbolic executor)"),
+ "C12": ("Bounded model checking of a one-node server assembled from the real components (handlers, DatasetManager, Dataset, partitions, ready loops, badgerWAL, Allocator): one hostile well-typed request per RPC over all request shapes in the bound; panics, fatal logs (apply errors) and deadlocks are violations, and the state the request leaves behind must snapshot and restore on a fresh replica; counterexamples replayed on a native one-node assembly with real etcd raft and real in-memory Badger.",
+         "bounds: id shapes {valid, unknown, 15 bytes, empty}, vector shapes {right, longer, empty} with values {number, NaN}, k in {0,2,2^32-1}, <=2 batch items, client-supplied BatchItem.level in {0,-2,2^28}, metadata {none, one key, 256-byte key, 65536-byte value}, create requests with client-filled id/partitions/size and counts of 2^32-1, catalogue shapes dimension 0..2 / partitions 0..2 / replicas 0..1 / undefined space; one schedule per request; no solver variables occur (exhaustive path enumeration by the symbolic executor)"),
  "C14": ("Bounded model checking of the catalogue state machine (every log of create/delete/replica changes, every snapshot cut, every applied prefix: replay == restore+replay), of restart through the real Server.setup wiring executed twice on one data directory, and of a 2-3 member cluster of real Servers over a shared committed log (creates/deletes through any member, replica addition by the allocator, leader compaction, late joiner, restart of any member): every member lists the same catalogue, acknowledged datasets listed, deleted ones absent.",
          "bounds: logs <=3-4 entries over 2 dataset ids; <=2 datasets with <=2 partitions on <=3 members, one restart; harness raft (one-member groups, or one shared committed log for the zero groups); restart and cluster runs are not replayed natively"),
  "C19": ("Bounded symbolic model checking of the real utils.PriorityQueue + container/heap SSA: all push/pop/peek/reverse histories up to the bound, priorities symbolic; assertions discharged by z3 per path.",
          "bounds: 5 mixed / 6 push-pop operations (7 / 8 thorough) followed by a full drain, one Reverse per history; priorities finite non-NaN"),
  "C20": ("Reduced claim: bounded model checking of a 1-3 member cluster of real Servers over an in-memory transport: joins through the real handshake (stream broken after any message, then retried), removal, leader compaction after any change, restart of any member (with or without its join list): every live member must list exactly the acknowledged members with the announced addresses; plus one member over several lives, and installation of a zero-group snapshot on another member. etcd/raft between propose and commit (elections, raft message loss) is replaced by a shared committed log and is not decided.",
          "bounds: <=3 members (4 without compaction in the thorough tier), one broken handshake per join, one removal, one restart per history; <=3 lives with <=2-3 joins per life in the single-member harness; not replayed natively"),
- "C13": ("Reduced claim: bounded model checking of the real Hnsw under concurrency at synchronisation-point granularity: one writer with concurrent readers (the server's use), two concurrent inserts, and concurrent insert/remove and remove/remove; every interleaving at lock acquisitions and atomic operations within the preemption bound; no panic, no all-blocked state, set-linearizable outcomes and contents, concurrent search results were live during the search with true scores, C01 guarantees at quiescence. Data races on plain memory are not visible to the executor and are not decided.",
+ "C13": ("Reduced claim: bounded model checking of the real Hnsw under concurrency at synchronisation-point granularity: one writer with concurrent readers (the server's use), two concurrent inserts, and concurrent insert/remove and remove/remove; every interleaving at lock acquisitions and atomic operations within the preemption bound; no panic, no all-blocked state, set-linearizable outcomes and contents, concurrent search results were live during the search with true scores, C01 guarantees at quiescence. Data races: vector-clock happens-before detection over every heap load/store, map operation and sync/atomic access on every explored schedule (mixed atomic/plain access included), confirmed natively with the Go race detector.",
          "bounds: 2 goroutines (3 in the thorough tier) with one operation each on an index of <=2 items, 3 ids, levels {0,1}, <=2 preemptions (3 thorough), M=1 (more configurations thorough); four entrypoint hand-over races between concurrent writers are known findings (natively demonstrated, findings/C13_stress_test.go.txt)"),
 }
 NA = {
